@@ -8,6 +8,8 @@
                        tested first; restart directory naming inverts
   separator            content.txt key join/split and JSON dump/load pair
   module-state         nothing found by a scan is remembered in module-level tables
+  level-representative the process component that represents a refinement level in the
+                       iteration scan is chosen among that level's own datasets
   no-inplace-on-shared per-restart entries are never updated through the merged overview
   definite-assignment  no stale/unassigned variable across restarts
 That a scan reports what is on disk is not decided."""
@@ -31,6 +33,7 @@ def run(rep):
     R.protocol_order(rep)
     R.regex_users(rep)
     R.content_file(rep)
+    R.level_representative(rep)
     c02.analyse(rep, owner_filter=lambda o: o.startswith(("GLOBAL:", "PARAM:its_available/")),
                 rule="no-inplace-on-shared", rels=["reading.py"], only=R.SCOPE["C18"])
     R.definite_assignment(rep, ["reading.py"], only=R.SCOPE["C18"])
